@@ -87,6 +87,13 @@ def gen_cases(rng, tier):
         fh = _rand_fh(rng)
         n = fh[-1] + rng.randint(1, 25)
         cases.append({"kind": "tts_fh", "n": n, "fh": fh, "X": rng.random() < 0.3})
+    for _ in range(40 if tier == "quick" else 400):
+        n = rng.randint(4, 30)
+        lo = rng.choice([0, 0, 5, -3, 100])
+        k = rng.randint(1, 3)
+        first = lo + rng.randint(1, n - 1)
+        fh = sorted(set([first] + [rng.randint(first, lo + n - 1) for _ in range(k - 1)]))
+        cases.append({"kind": "tts_fh_abs", "lo": lo, "n": n, "fh": fh, "X": rng.random() < 0.3})
     if tier == "thorough":
         cases += exhaustive_cases()
     return cases
@@ -163,6 +170,19 @@ def run_impl(case):
             fh = ForecastingHorizon(case["fh"], is_relative=True)
             if case.get("X"):
                 X = pd.DataFrame({"a": np.arange(case["n"], dtype=float)})
+                a, b, Xa, Xb = temporal_train_test_split(y, X, fh=fh)
+                return {"train": _ints(a.index), "test": _ints(b.index),
+                        "X_train": _ints(Xa.index), "X_test": _ints(Xb.index)}
+            a, b = temporal_train_test_split(y, fh=fh)
+            return {"train": _ints(a.index), "test": _ints(b.index)}
+        elif k == "tts_fh_abs":
+            import pandas as pd
+            from sktime.forecasting.base import ForecastingHorizon
+            lo, n = case["lo"], case["n"]
+            y = pd.Series(np.arange(n, dtype=float), index=pd.RangeIndex(lo, lo + n))
+            fh = ForecastingHorizon(case["fh"], is_relative=False)
+            if case.get("X"):
+                X = pd.DataFrame({"a": np.arange(n, dtype=float)}, index=y.index)
                 a, b, Xa, Xb = temporal_train_test_split(y, X, fh=fh)
                 return {"train": _ints(a.index), "test": _ints(b.index),
                         "X_train": _ints(Xa.index), "X_test": _ints(Xb.index)}
@@ -316,6 +336,18 @@ def oracle(case, out):
                                  or out["X_test"] != list(range(c + 1, n))):
             return "tts-fh-exogenous-slices: %s | %s" % (out["X_train"], out["X_test"])
         return None
+    if k == "tts_fh_abs":
+        lo, n, fh = case["lo"], case["n"], case["fh"]
+        if "err" in out:
+            return "rejected-feasible-configuration: %s" % out["err"]
+        if out["train"] != list(range(lo, fh[0])):
+            return "tts-fh-train: %s expected every label before %d" % (out["train"], fh[0])
+        if out["test"] != fh:
+            return "tts-fh-abs-test: %s expected the requested time points %s" % (out["test"], fh)
+        if "X_train" in out and (out["X_train"] != out["train"]
+                                 or out["X_test"] != list(range(fh[0], fh[-1] + 1))):
+            return "tts-fh-exogenous-slices: %s | %s" % (out["X_train"], out["X_test"])
+        return None
     return "unknown-kind"
 
 
@@ -422,6 +454,9 @@ def coq_case(case, out):
                                         copt(case["train_size"], cz), _cout2(out))
     if k == "tts_fh":
         return "CTtsFh %s %s %s" % (cz(case["n"]), czlist(case["fh"]), _cout2(out))
+    if k == "tts_fh_abs":
+        return "CTtsFhAbs %s %s %s %s" % (cz(case["lo"]), cz(case["n"]), czlist(case["fh"]),
+                                         _cout2(out))
     return None
 
 
@@ -438,6 +473,8 @@ def coq_model_term(case):
     if k == "tts_size":
         return "tts_positions %s %s %s" % (cz(case["n"]), copt(case["test_size"], cz),
                                           copt(case["train_size"], cz))
+    if k == "tts_fh_abs":
+        return "tts_fh_absolute %s %s %s" % (cz(case["lo"]), cz(case["n"]), czlist(case["fh"]))
     return "tts_fh_relative %s %s" % (cz(case["n"]), czlist(case["fh"]))
 
 
